@@ -3,7 +3,9 @@ import random
 from .. import common, corpus, suite_translate as st
 
 THEOREMS = ["Lou.C10.optargs_arrays", "Lou.C10.optargs_typeform", "Lou.C10.optargs_spacing", "Lou.C10.optargs_cursor",
-            "Lou.C10.wrapper_string", "Lou.C10.idEngine_blind"]
+            "Lou.C10.wrapper_string", "Lou.C10.idEngine_blind",
+            "Lou.CurBlind.translate_cursor_blind", "Lou.CurBlind.modelEngine_blind", "Lou.CurBlind.model_optargs",
+]
 
 CLAIM = dict(
     text=("Kernel-checked on the driver model: presence of outputPos/inputPos never reaches the engines and does not change "
@@ -14,7 +16,9 @@ CLAIM = dict(
           "32 presence patterns of the same call are executed on every shipped table in both directions (modes without "
           "compbrl bits), plus the *String and Prehyphenated wrappers; results and H4 traces (cells, maps, consumed lengths "
           "of every stage) must be equal across patterns - this is the evidence for blindness outside the modelled engines."),
-    note="CursorBlind/SpacingBlind are hypotheses at this layer (theorems only for Layer B engines).",
+    note=("CursorBlind/SpacingBlind are hypotheses of the Layer A theorems; for the Layer B engine models (F0 main pass, multipass "
+          "stage model) they are PROVED (LouProofs/CurBlind.lean: translate_cursor_blind, modelEngine_blind), so model_optargs holds "
+          "with no hypothesis; for engines outside the models blindness is what the 32-pattern runs test."),
     technique="Lean 4 proof over the driver model + exhaustive 32-pattern cross-equality on real runs",
     design="DESIGN.md §7 C10")
 
